@@ -136,6 +136,15 @@ func genC09(out, tier string, rng *rand.Rand) {
 	// directed: overwrites that keep the size (recompose from other sources, copies of composites): the
 	// file store must hold the new bytes, and so must an instance restarted on the directory
 	progs = append(progs, sameSizePrograms()...)
+	// directed: a bucket deleted while it still holds nested objects, then written into again (with and
+	// without re-creating it first)
+	upn := func(n, d string) Req {
+		return Req{Kind: "upload_media", B: "bkt", N: n, CType: "text/plain", Data: []byte(d), CP: noConds}
+	}
+	rdn := func(n string) Req { return Req{Kind: "get_media", B: "bkt", N: n} }
+	progs = append(progs,
+		[]Req{upn("dir/one", "1"), upn("dir/sub/two", "2"), upn("top", "3"), {Kind: "delete_bucket", B: "bkt", CP: noConds}, upn("dir/three", "4"), rdn("dir/three"), rdn("dir/one"), {Kind: "list", B: "bkt"}, upn("dir/sub/four", "5"), rdn("dir/sub/four"), {Kind: "list", B: "bkt"}},
+		[]Req{upn("dir/one", "1"), {Kind: "delete_bucket", B: "bkt", CP: noConds}, {Kind: "create_bucket", B: "bkt"}, upn("dir/one", "again"), rdn("dir/one"), {Kind: "list", B: "bkt"}, {Kind: "delete", B: "bkt", N: "dir/one", CP: noConds}, upn("dir/two", "x"), {Kind: "list", B: "bkt"}})
 	n = len(progs)
 	results := make([]res, 2*n)
 	parallel(2*n, func(k int) {
